@@ -11,26 +11,28 @@
      SUnsubSelf/SMapDel   the two halves of Unsubscribe
      SInact s      subscriber.Shutdown (atomic store)
      SUnreg s      RemoveSubscriber's delete (under subsMu)
-     SPubSnap p t e   publishToTopic: snapshot of topics[t] taken under the read lock
+     SPubSnap p t x   publishToTopic: snapshot of topics[t] taken under the read lock (payload x)
      SPubChk p     the active checks for the next subscriber of the snapshot succeeded
      SPubEnq p     the message is linked into that subscriber's queue
      SPubSkip p    the next subscriber of the snapshot was found inactive
      SDrain s n    n messages dequeued from subscriber s
      SCloseSubs / SCloseTopics   the two critical sections of Close
-   The subscriber's queue is a list here: that abstraction is what C20/Proofs.v establishes for
-   internal/queue (for the repaired queue under every interleaving; for the pooled one only
-   sequentially).
+   Actions on a subscriber handle that has not been created are no-ops (handles only come from
+   AddSubscriber). The subscriber's queue is a list here: that abstraction is what C20/Conc.v
+   establishes for internal/queue (for the non-recycling queue under every interleaving).
+
+   Ghost: every publish gets the identity (publisher, per-publisher sequence number); [snaplog]
+   records the snapshot taken for it.
 
    The sequential API operations are the compositions [exec] of these steps; the harness compares
    them with the real EventsStream after every operation. *)
 From Coq Require Import List Arith Bool.
 Import ListNotations.
 
-Definition ev := (nat * nat)%type.          (* publisher, sequence number *)
-Definition msg := (nat * ev)%type.          (* topic, event *)
+Record msg := mkMsg { mtopic : nat; mpay : nat; mpub : nat; mseq : nat }.
 
 Record ssub := mkSub { sa : bool; stop : list nat; sq : list msg; sdl : list msg }.
-Record pend := mkPend { ptopic : nat; pev : ev; prest : list nat; pchk : bool }.
+Record pend := mkPend { pmsg : msg; prest : list nat; pchk : bool }.
 
 Record sstate := mkS {
   ssubs : nat -> ssub;
@@ -38,7 +40,8 @@ Record sstate := mkS {
   sreg : list nat;
   tmap : nat -> list nat;
   ppend : nat -> option pend;
-  snaplog : list (msg * list nat)          (* ghost: every snapshot ever taken *)
+  pseq : nat -> nat;
+  snaplog : list (msg * list nat)
 }.
 
 Inductive slabel :=
@@ -46,7 +49,7 @@ Inductive slabel :=
 | SSubSelf (s t : nat) | SMapAdd (s t : nat)
 | SUnsubSelf (s t : nat) | SMapDel (s t : nat)
 | SInact (s : nat) | SUnreg (s : nat)
-| SPubSnap (p t : nat) (e : ev)
+| SPubSnap (p t x : nat)
 | SPubChk (p : nat) | SPubEnq (p : nat) | SPubSkip (p : nat)
 | SDrain (s n : nat)
 | SCloseSubs | SCloseTopics.
@@ -55,61 +58,71 @@ Definition updf {A} (f : nat -> A) (k : nat) (a : A) : nat -> A :=
   fun x => if Nat.eqb x k then a else f x.
 
 Definition sinit : sstate :=
-  mkS (fun _ => mkSub false [] [] []) 0 [] (fun _ => []) (fun _ => None) [].
+  mkS (fun _ => mkSub false [] [] []) 0 [] (fun _ => []) (fun _ => None) (fun _ => 0) [].
 
 Definition inb (x : nat) (l : list nat) : bool := existsb (Nat.eqb x) l.
 Definition addset (x : nat) (l : list nat) : list nat := if inb x l then l else l ++ [x].
 Definition delset (x : nat) (l : list nat) : list nat := filter (fun y => negb (Nat.eqb y x)) l.
 
 Definition set_sub (st : sstate) (s : nat) (b : ssub) : sstate :=
-  mkS (updf (ssubs st) s b) (nsubs st) (sreg st) (tmap st) (ppend st) (snaplog st).
+  mkS (updf (ssubs st) s b) (nsubs st) (sreg st) (tmap st) (ppend st) (pseq st) (snaplog st).
 Definition set_tmap (st : sstate) (m : nat -> list nat) : sstate :=
-  mkS (ssubs st) (nsubs st) (sreg st) m (ppend st) (snaplog st).
+  mkS (ssubs st) (nsubs st) (sreg st) m (ppend st) (pseq st) (snaplog st).
 Definition set_pend (st : sstate) (p : nat) (x : option pend) : sstate :=
-  mkS (ssubs st) (nsubs st) (sreg st) (tmap st) (updf (ppend st) p x) (snaplog st).
+  mkS (ssubs st) (nsubs st) (sreg st) (tmap st) (updf (ppend st) p x) (pseq st) (snaplog st).
+
+Definition next_pend (m : msg) (r : list nat) : option pend :=
+  match r with [] => None | _ => Some (mkPend m r false) end.
 
 (* a step that is not enabled leaves the state unchanged *)
 Definition sstep (st : sstate) (l : slabel) : sstate :=
   match l with
   | SNew =>
       mkS (updf (ssubs st) (nsubs st) (mkSub true [] [] [])) (S (nsubs st)) (sreg st ++ [nsubs st])
-          (tmap st) (ppend st) (snaplog st)
+          (tmap st) (ppend st) (pseq st) (snaplog st)
   | SSubSelf s t =>
-      let b := ssubs st s in set_sub st s (mkSub (sa b) (addset t (stop b)) (sq b) (sdl b))
-  | SMapAdd s t => set_tmap st (updf (tmap st) t (addset s (tmap st t)))
+      if Nat.ltb s (nsubs st) then
+        let b := ssubs st s in set_sub st s (mkSub (sa b) (addset t (stop b)) (sq b) (sdl b))
+      else st
+  | SMapAdd s t =>
+      if Nat.ltb s (nsubs st) then set_tmap st (updf (tmap st) t (addset s (tmap st t))) else st
   | SUnsubSelf s t =>
-      let b := ssubs st s in set_sub st s (mkSub (sa b) (delset t (stop b)) (sq b) (sdl b))
+      if Nat.ltb s (nsubs st) then
+        let b := ssubs st s in set_sub st s (mkSub (sa b) (delset t (stop b)) (sq b) (sdl b))
+      else st
   | SMapDel s t => set_tmap st (updf (tmap st) t (delset s (tmap st t)))
-  | SInact s => let b := ssubs st s in set_sub st s (mkSub false (stop b) (sq b) (sdl b))
-  | SUnreg s => mkS (ssubs st) (nsubs st) (delset s (sreg st)) (tmap st) (ppend st) (snaplog st)
-  | SPubSnap p t e =>
+  | SInact s =>
+      if Nat.ltb s (nsubs st) then
+        let b := ssubs st s in set_sub st s (mkSub false (stop b) (sq b) (sdl b))
+      else st
+  | SUnreg s => mkS (ssubs st) (nsubs st) (delset s (sreg st)) (tmap st) (ppend st) (pseq st) (snaplog st)
+  | SPubSnap p t x =>
       match ppend st p with
       | Some _ => st
       | None =>
+          let m := mkMsg t x p (pseq st p) in
           mkS (ssubs st) (nsubs st) (sreg st) (tmap st)
-              (updf (ppend st) p (Some (mkPend t e (tmap st t) false)))
-              (snaplog st ++ [((t, e), tmap st t)])
+              (updf (ppend st) p (next_pend m (tmap st t)))
+              (updf (pseq st) p (S (pseq st p)))
+              (snaplog st ++ [(m, tmap st t)])
       end
   | SPubChk p =>
       match ppend st p with
-      | Some (mkPend t e (s :: r) false) =>
-          if sa (ssubs st s) then set_pend st p (Some (mkPend t e (s :: r) true)) else st
+      | Some (mkPend m (s :: r) false) =>
+          if sa (ssubs st s) then set_pend st p (Some (mkPend m (s :: r) true)) else st
       | _ => st
       end
   | SPubEnq p =>
       match ppend st p with
-      | Some (mkPend t e (s :: r) true) =>
+      | Some (mkPend m (s :: r) true) =>
           let b := ssubs st s in
-          set_pend (set_sub st s (mkSub (sa b) (stop b) (sq b ++ [(t, e)]) (sdl b))) p
-                   (match r with [] => None | _ => Some (mkPend t e r false) end)
+          set_pend (set_sub st s (mkSub (sa b) (stop b) (sq b ++ [m]) (sdl b))) p (next_pend m r)
       | _ => st
       end
   | SPubSkip p =>
       match ppend st p with
-      | Some (mkPend t e (s :: r) false) =>
-          if sa (ssubs st s) then st
-          else set_pend st p (match r with [] => None | _ => Some (mkPend t e r false) end)
-      | Some (mkPend t e [] _) => set_pend st p None
+      | Some (mkPend m (s :: r) false) =>
+          if sa (ssubs st s) then st else set_pend st p (next_pend m r)
       | _ => st
       end
   | SDrain s n =>
@@ -118,7 +131,7 @@ Definition sstep (st : sstate) (l : slabel) : sstate :=
   | SCloseSubs =>
       mkS (fun x => let b := ssubs st x in
                     if inb x (sreg st) then mkSub false (stop b) (sq b) (sdl b) else b)
-          (nsubs st) [] (tmap st) (ppend st) (snaplog st)
+          (nsubs st) [] (tmap st) (ppend st) (pseq st) (snaplog st)
   | SCloseTopics => set_tmap st (fun _ => [])
   end.
 
@@ -127,7 +140,7 @@ Definition srun (st : sstate) (ls : list slabel) : sstate := fold_left sstep ls 
 (* ------------------------------------------------------------------ the sequential API *)
 
 Inductive sop :=
-| OAdd | OSub (s t : nat) | OUnsub (s t : nat) | OPub (t : nat) (e : ev) | OBcast (e : ev) (ts : list nat)
+| OAdd | OSub (s t : nat) | OUnsub (s t : nat) | OPub (t x : nat) | OBcast (x : nat) (ts : list nat)
 | ORemove (s : nat) | OShutdown (s : nat) | OIter (s : nat) | OClose | OCount (t : nat).
 
 (* the steps one publisher performs for one snapshot, run to completion *)
@@ -137,19 +150,19 @@ Fixpoint deliver (fuel : nat) (st : sstate) (p : nat) : sstate :=
   | S f =>
       match ppend st p with
       | None => st
-      | Some (mkPend _ _ [] _) => deliver f (sstep st (SPubSkip p)) p
-      | Some (mkPend _ _ (s :: _) _) =>
+      | Some (mkPend _ [] _) => st
+      | Some (mkPend _ (s :: _) _) =>
           if sa (ssubs st s)
           then deliver f (sstep (sstep st (SPubChk p)) (SPubEnq p)) p
           else deliver f (sstep st (SPubSkip p)) p
       end
   end.
 
-Definition publish (st : sstate) (t : nat) (e : ev) : sstate :=
-  let st1 := sstep st (SPubSnap 0 t e) in
+Definition publish (st : sstate) (t x : nat) : sstate :=
+  let st1 := sstep st (SPubSnap 0 t x) in
   deliver (S (length (tmap st t))) st1 0.
 
-Definition exec (st : sstate) (o : sop) : sstate * list msg :=
+Definition exec (st : sstate) (o : sop) : sstate * list (nat * nat) :=
   match o with
   | OAdd => (sstep st SNew, [])
   | OSub s t =>
@@ -157,8 +170,8 @@ Definition exec (st : sstate) (o : sop) : sstate * list msg :=
       then (sstep (sstep st (SSubSelf s t)) (SMapAdd s t), []) else (st, [])
   | OUnsub s t =>
       if Nat.ltb s (nsubs st) then (sstep (sstep st (SUnsubSelf s t)) (SMapDel s t), []) else (st, [])
-  | OPub t e => (publish st t e, [])
-  | OBcast e ts => (fold_left (fun a t => publish a t e) ts st, [])
+  | OPub t x => (publish st t x, [])
+  | OBcast x ts => (fold_left (fun a t => publish a t x) ts st, [])
   | ORemove s =>
       if Nat.ltb s (nsubs st)
       then
@@ -169,9 +182,11 @@ Definition exec (st : sstate) (o : sop) : sstate * list msg :=
   | OShutdown s => if Nat.ltb s (nsubs st) then (sstep st (SInact s), []) else (st, [])
   | OIter s =>
       if Nat.ltb s (nsubs st)
-      then (sstep st (SDrain s (length (sq (ssubs st s)))), sq (ssubs st s)) else (st, [])
+      then (sstep st (SDrain s (length (sq (ssubs st s)))),
+            map (fun m => (mtopic m, mpay m)) (sq (ssubs st s)))
+      else (st, [])
   | OClose => (sstep (sstep st SCloseSubs) SCloseTopics, [])
-  | OCount t => (st, [(length (tmap st t), (0, 0))])
+  | OCount t => (st, [(length (tmap st t), 0)])
   end.
 
 Fixpoint sorted_insert (x : nat) (l : list nat) : list nat :=
@@ -183,13 +198,13 @@ Definition sort_nat (l : list nat) : list nat := fold_right sorted_insert [] l.
 
 (* what the harness observes after every operation *)
 Record sobs := mkSObs {
-  so_result : list msg;
+  so_result : list (nat * nat);
   so_active : list bool;
   so_topics : list (list nat);
   so_counts : list nat
 }.
 
-Definition observe (st : sstate) (ntopics : nat) (r : list msg) : sobs :=
+Definition observe (st : sstate) (ntopics : nat) (r : list (nat * nat)) : sobs :=
   mkSObs r (map (fun i => sa (ssubs st i)) (seq 0 (nsubs st)))
          (map (fun i => sort_nat (stop (ssubs st i))) (seq 0 (nsubs st)))
          (map (fun t => length (tmap st t)) (seq 0 ntopics)).
